@@ -98,6 +98,14 @@ func NewMerger(less func(a, b *sam.Record) bool, src ...*Reader) (*Merger, error
 		m.readers[i] = &readers[i]
 	}
 	if m.less != nil {
+		// Inputs that have no first record do not take part in the merge.
+		live := m.readers[:0]
+		for _, r := range m.readers {
+			if r.head != nil {
+				live = append(live, r)
+			}
+		}
+		m.readers = live
 		heap.Init((*bySortOrderAndID)(m))
 	}
 
